@@ -20,7 +20,7 @@ _ops("C01", "New NewFromFasta Add AddString IgnoreIdentical Append Concat Rename
             "AppendSeqIdentifier Sort ShuffleSequences FilterLength Deduplicate Translate Clone CloneSeqBag Sample "
             "SampleSeqBag Clear SetSequenceChar ReplaceChar Replace AutoAlphabet SetAlphabet DetectAlphabet Identical "
             "RemoveGapSeqs RemoveCharacterSeqs RemoveGapSites RemoveCharacterSites RemoveMajorityCharacterSites")
-_ops("C04", "SubAlign SelectSites InverseCoordinates InversePositions TrimSequences RefCoordinates RefSites Concat "
+_ops("C04", "SubAlign Extract SelectSites InverseCoordinates InversePositions TrimSequences RefCoordinates RefSites Concat "
             "Append Split Transpose DiffWithFirst ReplaceMatchChars")
 _ops("C05", "Translate TranslateByReference CodonAlign")
 _ops("C06", "ReverseComplement ReverseComplementSequences ToUpper ToLower Unalign")
@@ -35,7 +35,7 @@ _ops("C10", "ShuffleSequences ShuffleSites Swap SimulateRogue BuildBootstrap Sam
             "AddGaps Recombine Rarefy")
 _ops("C19", "Query")
 
-READ_ONLY = set("Clone CloneSeqBag Unalign Sample SampleSeqBag SubAlign SelectSites InverseCoordinates InversePositions "
+READ_ONLY = set("Clone CloneSeqBag Unalign Sample SampleSeqBag SubAlign Extract SelectSites InverseCoordinates InversePositions "
                 "RefCoordinates RefSites Split Transpose MaxCharStats Consensus CharStats CharStatsSite CharStatsSeq "
                 "UniqueCharacters Entropy NbVariableSites InformativeSites AvgAllelesPerSite Pssm CountDifferences "
                 "NumGapsUnique NumMutationsUnique NumMutRef ListMutRef CountProfile ProfileOnly SiteConservation AlphabetInfo BuildBootstrap RandSubAlign Rarefy "
